@@ -162,6 +162,20 @@ pub mod c17 {
             }
         };
     }
+    /// 1100 bytes of 0xFF from a constant array (no construction loop in the harness, append only):
+    /// cheap enough for the quick tier, and long and heavy enough to overflow any 16-bit partial sum
+    /// that is not folded often enough (seeded change C17_m1)
+    static FF_1100: [u8; 1100] = [0xff; 1100];
+    #[kani::proof]
+    #[kani::unwind(1110)]
+    pub fn q_slice_ff_1100_append() {
+        let s: u8 = kani::any();
+        let mut c = state(s);
+        c.append(&FF_1100);
+        // 1100 * 255 = 280500 = 1095 * 256 + 180
+        assert!(c.raw_value() == s.wrapping_add(180), "C17: append(1100 x 0xFF) == sum of its bytes mod 256");
+        kani::cover!(true, "REACHED");
+    }
     extreme_slice_harness!(t_slice_ff_1100, 1100, 1110, |_i| 0xff);
     extreme_slice_harness!(t_slice_ff_even_1100, 1100, 1110, |i| if i % 2 == 0 { 0xff } else { 0 });
 
